@@ -283,9 +283,19 @@ def int_from_bytes(seq, byteorder='big'):
 
 class SymMem:
     """abstract byte array: address -> byte term; loads of unknown cells give a fresh term; stores are logged"""
-    def __init__(self, init=None):
+    def __init__(self, init=None, size=None):
         self.cells = dict(init or {})
         self.stores = []          # (addr, SB value)
+        self.size = size          # len(arr); None = unbounded (len() is then outside the domain)
+
+    def __len__(self):
+        if self.size is None:
+            raise AnalysisError("len() of a byte array of unspecified size")
+        return self.size
+
+    def _inside(self, a):
+        if a < 0 or (self.size is not None and a >= self.size):
+            raise Raised(f"IndexError: byte {a} of an array of {self.size} bytes")
 
     ABSTRACT_METHODS = ()
 
@@ -299,6 +309,7 @@ class SymMem:
             lo, hi = self._range(addr)
             return ByteSeq(self.cells.get(a, ('cell', a)) for a in range(lo, max(lo, hi)))
         a = _addr(addr)
+        self._inside(a)
         return SB([self.cells.get(a, ('cell', a))])
 
     def store(self, addr, value):
@@ -313,6 +324,7 @@ class SymMem:
                 self.cells[lo + k] = t
             return
         a = _addr(addr)
+        self._inside(a)
         v = SB.of(value)
         self.stores.append((a, v))
         if len(v.b) > 1:
@@ -329,7 +341,8 @@ class MemView(SymMem):
     def __init__(self, mem, size=1):
         if not isinstance(mem, SymMem) or isinstance(mem, MemView):
             raise AnalysisError("memoryview of a value outside the abstract domain")
-        self.mem, self.size = mem, size
+        self.mem, self.isz = mem, size
+        self.size = None if mem.size is None else mem.size // size
 
     def cast(self, fmt, *shape):
         if shape or fmt not in self.SIZES or fmt == 'b':
@@ -340,17 +353,21 @@ class MemView(SymMem):
         if isinstance(idx, slice):
             raise AnalysisError("memoryview slice outside the abstract domain")
         i = _addr(idx)
-        return SB([self.mem.cells.get(a, ('cell', a)) for a in range(i * self.size, (i + 1) * self.size)])
+        out = []
+        for a in range(i * self.isz, (i + 1) * self.isz):
+            self.mem._inside(a)
+            out.append(self.mem.cells.get(a, ('cell', a)))
+        return SB(out)
 
     def store(self, idx, value):
         if isinstance(idx, slice):
             raise AnalysisError("memoryview slice outside the abstract domain")
         i = _addr(idx)
         v = SB.of(value)
-        if len(v.b) > self.size:
-            raise Raised(f"ValueError: memoryview item of {self.size} byte(s) <- a value with {len(v.b)} significant bytes")
-        for k in range(self.size):
-            self.mem.store(i * self.size + k, SB([v.b[k]]) if k < len(v.b) else 0)
+        if len(v.b) > self.isz:
+            raise Raised(f"ValueError: memoryview item of {self.isz} byte(s) <- a value with {len(v.b)} significant bytes")
+        for k in range(self.isz):
+            self.mem.store(i * self.isz + k, SB([v.b[k]]) if k < len(v.b) else 0)
 
 
 def _addr(a):
@@ -440,6 +457,11 @@ class Interp(Evaluator):
         return Closure(e, self.env)
 
     def ev_BinOp(self, e):
+        if isinstance(e.op, ast.Pow):
+            l, r = self.ev(e.left), self.ev(e.right)
+            if all(isinstance(x, int) and not isinstance(x, bool) for x in (l, r)) and 0 <= r <= 64:
+                return l ** r
+            raise AnalysisError(f"power outside the abstract domain: {norm(e)}")
         f = _BIN.get(type(e.op))
         if f is None:
             raise AnalysisError(f"binary operator outside the abstract domain: {norm(e)}")
